@@ -48,6 +48,12 @@ def run(prog, rep, tier, cfg):
     X.value_from('K10', 'init:next_id-increment', MA, vals, ['F:State.next_id', 'OP:Add', 'V:1'], 'next_id := next_id + 1', forbid=['OP:Sub'])
     wmap = X.write_blocks(MA, 'State', 'address_map')
     X.guard('K6b', 'init:robust-address-fresh', MA, wmap, m_boolatoms(['C:set_if_absent'], True), '!set_if_absent(robust) => Err')
+    # every successful mapping also binds the robust (re-org stable) address and stores the map - also when the delegated
+    # address was already known (Exec4 over a placeholder): an early return would hand out the id without the binding
+    sia = [c for c in MA.calls if (c.callee or '').endswith('::set_if_absent')]
+    rep.need('K7', 'init:robust-address-bound-on-every-success', len(sia) == 1 and result_fate(MA, sia[0]) == 'try' and not MA.ok_returns_from([0], blocked={sia[0].bb}),
+             'no success return of map_addresses_to_id avoids set_if_absent(robust_addr, id)', X.loc(MA))
+    rep.need('K7', 'init:map-stored-on-every-success', bool(wmap) and not MA.ok_returns_from([0], blocked=set(wmap)), 'no success return avoids storing the address map', X.loc(MA))
     sets = [c for c in MA.calls if (c.callee or '').endswith('Map2::<BS, K, V>::set')]
     rep.floor('K6b', 'delegated_map_set_sites', len(sets), 1)
     X.guard('K6b', 'init:delegated-mapped-once', MA, [c.bb for c in sets], m_variant(['C:Map2::<BS, K, V>::get'], 0), 'delegated address not yet mapped')
